@@ -253,6 +253,11 @@ func runSolicit(c c31cCase) (vals [][]link_solicit.SolicitMountedStream, strm *f
 	// local is the higher peer or not - irrelevant here: the incoming stream is opened by the remote side
 	ml := &fakes.MountedLink{UUID: 900, TptID: linkTptID, Local: local, Remote: remote}
 	handlers := make([]*fakes.ResolverHandler, len(c.Locals))
+	dirs := make([]directive.Directive, len(c.Locals))
+	alias := make([]int, len(c.Locals))
+	for i := range alias {
+		alias[i] = i
+	}
 	for i, s := range c.Locals {
 		var pc peer.ID
 		switch s.Peer {
@@ -269,6 +274,19 @@ func runSolicit(c c31cCase) (vals [][]link_solicit.SolicitMountedStream, strm *f
 			tc = linkTptID + 1
 		}
 		dir := link_solicit.NewSolicitProtocol(protocol.ID(solProtos[s.Proto]), []byte(solCtxs[s.Ctx]), pc, tc)
+		// the bus de-duplicates directives: a new one that declares itself equivalent to a running one is attached
+		// to that instance and shares its values instead of being handed to the controller
+		merged := false
+		for j := 0; j < i; j++ {
+			if eq, ok := dir.(directive.DirectiveWithEquiv); ok && dirs[j] != nil && eq.IsEquivalent(dirs[j]) {
+				alias[i], merged = aliasRoot(alias, j), true
+				break
+			}
+		}
+		dirs[i] = dir
+		if merged {
+			continue
+		}
 		res, herr := ctrl.HandleDirective(ctx, fakes.NewInstance(dir))
 		if herr != nil || len(res) != 1 {
 			return nil, nil, fmt.Errorf("solicit directive not handled: %v", herr)
@@ -282,7 +300,7 @@ func runSolicit(c c31cCase) (vals [][]link_solicit.SolicitMountedStream, strm *f
 	for time.Now().Before(dl) {
 		ok := true
 		for _, h := range handlers {
-			if !h.IsIdle() {
+			if h != nil && !h.IsIdle() {
 				ok = false
 			}
 		}
@@ -331,7 +349,11 @@ func runSolicit(c c31cCase) (vals [][]link_solicit.SolicitMountedStream, strm *f
 	}
 	time.Sleep(5 * time.Millisecond)
 	vals = make([][]link_solicit.SolicitMountedStream, len(c.Locals))
-	for i, hd := range handlers {
+	for i := range handlers {
+		hd := handlers[alias[i]]
+		if hd == nil {
+			continue
+		}
 		for _, v := range hd.All() {
 			if s, ok := v.(link_solicit.SolicitMountedStream); ok {
 				vals[i] = append(vals[i], s)
@@ -339,6 +361,13 @@ func runSolicit(c c31cCase) (vals [][]link_solicit.SolicitMountedStream, strm *f
 		}
 	}
 	return vals, a, nil
+}
+
+func aliasRoot(alias []int, j int) int {
+	for alias[j] != j {
+		j = alias[j]
+	}
+	return j
 }
 
 func (s solSpec) admits() bool { return s.Peer != 2 && s.Tpt != 2 }
